@@ -219,6 +219,14 @@ def gen_sequences(rnd, tier):
                     kw = dict(common_kw(rnd, level, v <= 4), version=v if rnd.random() < 0.9 else str(v))
                     kw.update(extra)
                     yield SeqCase(content, kw, 'by-version')
+    # ---- version= path, content far shorter than the requested version holds: one symbol of exactly version v, whose minimal
+    #      version lies in another character count indicator range (1-9 / 10-26 / 27-40) — wave 10, C08f-2
+    for v in ([9, 10, 26, 27, 40] if quick else [2, 5, 9, 10, 11, 20, 26, 27, 28, 33, 40]):
+        for mode in modes:
+            content, extra = text_for(rnd, rnd.choice(KINDS[mode]), rnd.randint(1, 12))
+            kw = dict(common_kw(rnd, rnd.choice(levels), False), version=v)
+            kw.update(extra)
+            yield SeqCase(content, kw, 'by-version')
     # ---- symbol_count= path
     for k in range(1, 17):
         for mode in modes:
